@@ -196,6 +196,22 @@ def run_one(tape: Any, cfg: Dict[str, Any], forbid: FrozenSet[str] = frozenset()
                 pass
             else:
                 data = data[:sp[0]]
+        else:
+            # the proxy ends the header block at the first line that is empty after stripping white space; bytes after
+            # that point are, for it, "further bytes after a complete body-less request" (same known finding)
+            pos = data.find(b'\r\n')
+            while pos >= 0:
+                nxt = data.find(b'\r\n', pos + 2)
+                if nxt < 0:
+                    break
+                if data[pos + 2:nxt].strip() == b'':
+                    lenient_end = nxt + 2
+                    head = data[:lenient_end].lower()
+                    if lenient_end < len(data) and b'content-length' not in head and b'transfer-encoding' not in head:
+                        if not g.note('multi_request_segment'):
+                            data = data[:lenient_end]
+                    break
+                pos = nxt
         if data.startswith(b'HEAD '):
             if not g.note('head_request'):
                 data = b'GET ' + data[5:]
